@@ -584,7 +584,7 @@ class VcfReader:
     @staticmethod
     def _extract_HP_phase(call: VariantRecordSample) -> Optional[VariantCallPhase]:
         hp = call.get("HP")
-        if hp is None or hp == (".",):
+        if hp is None or all(x is None or x == "." for x in hp):
             return None
         fields = [[int(x) for x in s.split("-")] for s in hp]
         for i in range(len(fields)):
@@ -1260,19 +1260,24 @@ class PhasedVcfWriter(VcfAugmenter):
                     self._set_phasing_tags(call, components[pos], phases[pos], haploid_component)
                 else:
                     # Unphased
-                    call[self.tag] = None
+                    call[self.tag] = None if self.tag == "PS" else "."
             prev_pos = pos
         return genotype_changes
 
     def _remove_existing_phasing(self, record: VariantRecord, samples: Iterable[str]):
-        if self.tag == "PS":
-            for sample in samples:
-                call = record.samples[sample]
-                if "GT" not in call:
-                    continue
-                call.phased = False
-                if call["GT"] is not None and all(allele is not None for allele in call["GT"]):
-                    call["GT"] = sorted(call["GT"])
+        for sample in samples:
+            call = record.samples[sample]
+            if "GT" not in call:
+                continue
+            call.phased = False
+            if call["GT"] is not None and all(allele is not None for allele in call["GT"]):
+                call["GT"] = sorted(call["GT"])
+            # Phase statements of either encoding left over from the input would be mixed
+            # with (or mistaken for) the result of this run
+            if "PS" in record.format:
+                call["PS"] = None
+            if "HP" in record.format:
+                call["HP"] = "."
 
 
 def genotype_code(gt: Optional[Tuple[Optional[int], ...]]) -> Genotype:
